@@ -5,6 +5,7 @@
  * Copyright (C) 2019 David Oberhollenzer <goliath@infraroot.at>
  */
 #include "util/util.h"
+#include "util/rbtree.h"
 #include "common.h"
 
 #include <string.h>
@@ -62,9 +63,17 @@ static sqfs_tree_node_t *create_node(sqfs_inode_generic_t *inode,
 	return n;
 }
 
+static int compare_inode_num(const void *ctx, const void *lhs, const void *rhs)
+{
+	sqfs_u32 l = *((const sqfs_u32 *)lhs), r = *((const sqfs_u32 *)rhs);
+	(void)ctx;
+
+	return l < r ? -1 : (l > r ? 1 : 0);
+}
+
 static int fill_dir(sqfs_dir_reader_t *dr, sqfs_tree_node_t *root,
 		    sqfs_dir_reader_state_t *state,
-		    unsigned int flags)
+		    unsigned int flags, rbtree_t *dirs_seen)
 {
 	sqfs_tree_node_t *n, *prev, **tail;
 	sqfs_inode_generic_t *inode;
@@ -105,6 +114,25 @@ static int fill_dir(sqfs_dir_reader_t *dr, sqfs_tree_node_t *root,
 			return SQFS_ERROR_LINK_LOOP;
 		}
 
+		/* a directory can only be reachable through a single entry */
+		if (inode->base.type == SQFS_INODE_DIR ||
+		    inode->base.type == SQFS_INODE_EXT_DIR) {
+			sqfs_u32 num = inode->base.inode_number;
+
+			if (rbtree_lookup(dirs_seen, &num) != NULL) {
+				free(n);
+				free(inode);
+				return SQFS_ERROR_LINK_LOOP;
+			}
+
+			err = rbtree_insert(dirs_seen, &num, &num);
+			if (err) {
+				free(n);
+				free(inode);
+				return err;
+			}
+		}
+
 		*tail = n;
 		tail = &n->next;
 		n->parent = root;
@@ -125,7 +153,7 @@ static int fill_dir(sqfs_dir_reader_t *dr, sqfs_tree_node_t *root,
 				if (err)
 					return err;
 
-				err = fill_dir(dr, n, &nstate, flags);
+				err = fill_dir(dr, n, &nstate, flags, dirs_seen);
 				if (err)
 					return err;
 			}
@@ -178,6 +206,7 @@ int sqfs_dir_reader_get_full_hierarchy(sqfs_dir_reader_t *rd,
 	sqfs_tree_node_t *root, *tail, *new;
 	sqfs_inode_generic_t *inode;
 	sqfs_dir_node_t *ent;
+	rbtree_t dirs_seen;
 	const char *ptr;
 	int ret;
 
@@ -264,7 +293,13 @@ int sqfs_dir_reader_get_full_hierarchy(sqfs_dir_reader_t *rd,
 		if (ret)
 			goto fail;
 
-		ret = fill_dir(rd, tail, &state, flags);
+		ret = rbtree_init(&dirs_seen, sizeof(sqfs_u32),
+				  sizeof(sqfs_u32), compare_inode_num);
+		if (ret)
+			goto fail;
+
+		ret = fill_dir(rd, tail, &state, flags, &dirs_seen);
+		rbtree_cleanup(&dirs_seen);
 		if (ret)
 			goto fail;
 	}
